@@ -335,9 +335,54 @@ pub fn run(ctx: &mut Ctx) {
     // ---- the same history muxed with real time passing between two calls ----
     // (the harness owns the schedule: one run back to back, one with a pause before a generated
     // call; the bytes must be equal. Bounded by count, each case costs the pause in wall time only.)
+    // ---- soak: the same call repeated very many times on one thread keeps returning the same
+    // result (state that lives outside the reader - process-wide or per-thread counters, caches,
+    // budgets - would show here and nowhere else) ----
+    ctx.stage("soak");
+    if ctx.enter(0) {
+        let reps = ctx.pick(260_000u32, 1_200_000u32);
+        let res = soak(ctx, reps);
+        ctx.judge(&serde_json::json!({"soak_repetitions": reps}), res);
+    }
     ctx.stage("paced");
     let (n, ms) = ctx.pick((3u32, 1250u64), (10u32, 2600u64));
     ctx.run_prop((mux::mux_history(3, 24, 0.0), any::<u16>()).prop_map(move |(case, frac)| Paced { case, frac, ms }), n, |ctx, p| paced(ctx, p));
+}
+
+fn soak(ctx: &mut Ctx, reps: u32) -> Check {
+    let fb = crate::refmp4::movie::build(&crate::adv::kitchen_sink_frag(0));
+    let init_bytes = fb.bytes[..fb.init_len].to_vec();
+    let seg = fb.segment.clone();
+    let init = Mp4Reader::read_header(Cursor::new(init_bytes.clone()), init_bytes.len() as u64).map_err(|e| Failure::new("c15:soak-init-open-failed", e.to_string()))?;
+    let n = seg.len() as u64;
+    let first = guard(|| init.read_fragment_header(Cursor::new(seg.clone()), n).map(|r| (r.moofs.clone(), r.tracks().len())).map_err(|e| e.to_string())).map_err(|p| p.failure("read_fragment_header"))?;
+    ensure!(first.is_ok(), "c15:soak-segment-open-failed", "the reference segment does not open: {:?}", first.as_ref().err());
+    let boxes_per_open = crate::refmp4::parse::walk_lenient(&seg).iter().map(|b| 1 + count_boxes(&b.children)).sum::<usize>();
+    for i in 1..=reps {
+        let again = guard(|| init.read_fragment_header(Cursor::new(seg.clone()), n).map(|r| (r.moofs.clone(), r.tracks().len())).map_err(|e| e.to_string())).map_err(|p| p.failure("read_fragment_header"))?;
+        ensure!(again == first, "c15:soak-fragment-open-differs", "opening the same media segment against the same init reader for the {}th time on one thread gives a different result than the first time: {:?}", i + 1, again.as_ref().err());
+        if i % 50_000 == 0 {
+            ctx.heartbeat();
+        }
+    }
+    // the same for sample reads on one long-lived reader of a plain file
+    let tb = crate::refmp4::movie::build(&crate::adv::kitchen_sink(0));
+    let mut r = Mp4Reader::read_header(Cursor::new(tb.bytes.clone()), tb.bytes.len() as u64).map_err(|e| Failure::new("c15:soak-open-failed", e.to_string()))?;
+    let want = guard(|| r.read_sample(1, 2).map(|s| s.map(|s| (s.bytes.to_vec(), s.start_time, s.duration))).map_err(|e| e.to_string())).map_err(|p| p.failure("read_sample"))?;
+    for i in 1..=reps {
+        let got = guard(|| r.read_sample(1, 2).map(|s| s.map(|s| (s.bytes.to_vec(), s.start_time, s.duration))).map_err(|e| e.to_string())).map_err(|p| p.failure("read_sample"))?;
+        ensure!(got == want, "c15:soak-read-sample-differs", "read_sample(1, 2) repeated {} times on one reader gives a different result than the first time", i + 1);
+        if i % 50_000 == 0 {
+            ctx.heartbeat();
+        }
+    }
+    ctx.count("soak:completed");
+    ctx.extra.insert("soak".into(), serde_json::json!({"fragment_opens": reps, "box_headers_per_open": boxes_per_open, "box_headers_total": reps as u64 * boxes_per_open as u64, "sample_reads": reps}));
+    Ok(())
+}
+
+fn count_boxes(b: &[crate::refmp4::parse::PBox]) -> usize {
+    b.iter().map(|x| 1 + count_boxes(&x.children)).sum()
 }
 
 #[derive(Clone, Debug, Serialize, Deserialize)]
@@ -375,6 +420,10 @@ fn paced(ctx: &mut Ctx, p: &Paced) -> Check {
 }
 
 pub fn replay(ctx: &mut Ctx, stage: &str, case: &Value) -> Check {
+    if stage == "soak" {
+        let reps = case.get("soak_repetitions").and_then(|x| x.as_u64()).unwrap_or(260_000) as u32;
+        return soak(ctx, reps);
+    }
     if stage == "paced" {
         let p: Paced = serde_json::from_value(case.clone()).map_err(|e| Failure::new("replay:bad-case", e.to_string()))?;
         return paced(ctx, &p);
